@@ -1,3 +1,47 @@
-(* C12 - placeholder (DESIGN.md 7 C12). *)
-From DL Require Import Base Context.
-Example C12_placeholder : True. Proof. exact I. Qed.
+(* C12 - scope providers pre-bind dimension names for exactly the current call.
+   - [C12_prebind]: with a provider whose value is sc, the argument phase is the context started from the table sc
+     (so by C01 the provided sizes belong to the accepted assignment - tensors must match them, a literal that
+     contradicts them is rejected - and by C02/C05 expressions may refer to them);
+   - [C12_bad_provider]: an object that does not implement the protocol gives DLTypeScopeProviderError (for a
+     "self" provider as for a free one), before anything else;
+   - [C12_self_needs_method]: "self" on a function without self / cls is TypeError at decoration;
+   - [C12_consulted_every_call]: in every history the provider value a call uses is the one in force at that call
+     (C09_history_isolated: expected_outcome reads `apply_sets` up to that point), and calls never change it. *)
+From DL Require Import Base Lexer Parser Eval Shape Dtypes Check Context Hints Call Structural World WorldProofs CtxSound CtxLift.
+
+Theorem C12_prebind : forall w sc args, w_provider w <> PNone ->
+  arg_phase w (PSOk sc) args = (dlet q <- add_args (w_params w) args []; assert_context (ctx0 sc) q).
+Proof. intros w sc args H. unfold arg_phase, initial_table. destruct (w_provider w); [congruence|reflexivity|reflexivity]. Qed.
+Theorem C12_provided_sizes_belong_to_the_assignment : forall w sc args v, wrapped_wf w -> w_provider w <> PNone ->
+  run_call w (PSOk sc) args (BReturn v) = (true, CReturned v) ->
+  exists cF, extends sc (table cF).
+Proof.
+  intros w sc args v Hw Hp H. destruct (run_call_sound w (PSOk sc) args v Hw H) as (sc0 & qa & qr & cF & Hi & _ & _ & Hx & _).
+  unfold initial_table in Hi. destruct (w_provider w); [congruence| |]; injection Hi as <-; eauto.
+Qed.
+Theorem C12_bad_provider : forall w args body, w_provider w <> PNone ->
+  run_call w PSBad args body = (false, CRejected EScopeProvider).
+Proof. intros w args body H. unfold run_call, initial_table. destruct (w_provider w); [congruence|reflexivity|reflexivity]. Qed.
+Theorem C12_self_needs_method : forall f, f_provider f = PSelf -> f_is_method f = false -> decorate true f = DecError TypeErr.
+Proof. intros f Hp Hm. unfold decorate. rewrite Hp, Hm. reflexivity. Qed.
+Theorem C12_consulted_every_call : forall h1 p sc h2 f args w, wf_provider f = Some p ->
+  forallb is_call h2 = true ->
+  nth_error (snd (run_history current w (h1 ++ SetProvider p sc :: h2 ++ [CallOp f args]))) (length h1 + 1 + length h2)
+  = Some (Some (call_alone (aliases w) (PSOk sc) f args)).
+Proof.
+  intros h1 p sc h2 f args w Hp Hc. rewrite history_isolated. simpl.
+  assert (G: forall pr, nth_error (expected_outcomes (aliases w) pr (h1 ++ SetProvider p sc :: h2 ++ [CallOp f args])) (length h1 + 1 + length h2)
+             = Some (Some (call_alone (aliases w) (PSOk sc) f args))).
+  { induction h1 as [|o h1 IH]; intros pr.
+    - simpl. revert pr. assert (forall pr, assoc p pr = Some sc ->
+        nth_error (expected_outcomes (aliases w) pr (h2 ++ [CallOp f args])) (length h2) = Some (Some (call_alone (aliases w) (PSOk sc) f args))).
+      { induction h2 as [|o h2 IH2]; intros pr Ha; simpl.
+        - unfold provider_value. simpl. rewrite Hp, Ha. reflexivity.
+        - simpl in Hc. apply andb_true_iff in Hc as [Ho Hh]. destruct o; try discriminate. simpl. apply IH2; auto. }
+      intros pr. apply H. clear. induction pr as [|[a x] pr IH]; simpl; [rewrite String.eqb_refl; reflexivity|].
+      destruct (a =? p)%string eqn:E; simpl; rewrite E; auto.
+    - simpl. apply IH. }
+  apply G.
+Qed.
+Redirect "C12.assumptions.1" Print Assumptions C12_prebind.
+Redirect "C12.assumptions.2" Print Assumptions C12_consulted_every_call.
